@@ -11,7 +11,7 @@ if [ ! -x $B/bin/rewrite ] || [ $V/tools/rewrite/main.go -nt $B/bin/rewrite ]; t
   (cd $V/tools/rewrite && go build -o $B/bin/rewrite .) || { echo "build: rewriter failed" >&2; exit 2; }
 fi
 YIELD=github.com/lindb/lindb/kv,github.com/lindb/lindb/pkg/queue,github.com/lindb/lindb/replica,github.com/lindb/lindb/index,github.com/lindb/lindb/tsdb,github.com/lindb/lindb/query,github.com/lindb/lindb/coordinator/master,github.com/lindb/lindb/internal/concurrent,github.com/lindb/lindb/app/storage/rpc
-CONSTS=github.com/lindb/lindb/pkg/queue.dataPageSize=512,github.com/lindb/lindb/pkg/queue.indexItemsPerPage=8
+CONSTS=github.com/lindb/lindb/pkg/queue.dataPageSize=512,github.com/lindb/lindb/pkg/queue.indexItemsPerPage=8,github.com/lindb/lindb/pkg/bufioutil.defaultWriteBufferSize=4096
 $B/bin/rewrite -dir /repo -out $B/overlay -const $CONSTS -yield $YIELD \
   ./kv/... ./pkg/... ./replica/... ./index/... ./tsdb/... ./query/... ./coordinator/... ./internal/... ./flow/... ./aggregation/... ./app/storage/rpc/... ./series/... ./models/... ./metrics/... ./rpc/... > $B/rewrite.log 2>&1 || { cat $B/rewrite.log >&2; echo "build: rewrite failed" >&2; exit 2; }
 (cd $V/sim && cp -n /repo/go.sum go.sum 2>/dev/null; go test -c -tags verif -overlay $B/overlay/overlay.json -o $B/sim.test.new ./run) > $B/build.log 2>&1 || { cat $B/build.log >&2; echo "build: go test -c failed" >&2; exit 2; }
